@@ -87,10 +87,13 @@ def make_data(p):
         Xva[: max(2, len(Xva) // 4)] = Xtr[idx[0]].clone()
     far_dir = torch.randn(4, d, generator=g)
     fresh = torch.randn(8, d, generator=g) * 1.5
-    Xq = torch.cat([Xva[:16], fresh, Xtr[:12], Xtr[:6] * 1e3, Xva[:3] * 1e4, Xtr[:8] * 1e6, far_dir * 1e6,
+    # moderately far rows: every class score is tiny but not yet 0, so the clamp of the decoder creates exact ties
+    mod = torch.cat([Xtr[:4] * 5.0, Xtr[4:8] * 12.0, Xva[:4] * 30.0, fresh[:4] * 80.0, Xtr[8:12] * 200.0], 0)
+    Xq = torch.cat([Xva[:16], fresh, Xtr[:12], Xtr[:6] * 1e3, Xva[:3] * 1e4, mod, Xtr[:8] * 1e6, far_dir * 1e6,
                     -Xtr[:2] * 1e6], 0).float().contiguous()
     nfar0 = Xq.shape[0] - (8 + 4 + 2)
-    kinds = (['in-range'] * (min(16, len(Xva)) + 8) + ['train-point'] * 12 + ['x1e3'] * 6 + ['x1e4'] * min(3, len(Xva)))
+    kinds = (['in-range'] * (min(16, len(Xva)) + 8) + ['train-point'] * 12 + ['x1e3'] * 6 + ['x1e4'] * min(3, len(Xva))
+             + ['moderately-far'] * mod.shape[0])
     kinds = kinds + ['x1e6'] * (Xq.shape[0] - len(kinds))
     return Xtr, ytr, Xva, yva, Xq, kinds, ctr, cva, nfar0
 
@@ -250,7 +253,10 @@ def run_case(p, drv):
     checked = {'argmax': 0, 'argmax_skipped_ties': 0, 'far': 0}
     if hard and len(model.trees) == 1 and ok_shape and Lb.shape == (nq,):
         srt = np.sort(Pd, 1)
-        tie = (srt[:, -1] - srt[:, -2]) < 1e-6
+        gap = srt[:, -1] - srt[:, -2]
+        # near-ties (0 < gap < 1e-6) are left to rounding; an exact tie is decided like torch.argmax decides it (first maximal
+        # index: Props/C12 `argmax_consistent`, `predict_is_most_probable`)
+        tie = (gap < 1e-6) & (gap > 0)
         bad = (Pd.argmax(1) != Lb) & ~tie
         checked['argmax'] = int((~tie).sum())
         checked['argmax_skipped_ties'] = int(tie.sum())
